@@ -256,6 +256,67 @@ func successor(st *stack.Stack, rng *rand.Rand, idA, idB, wave int, protoA, prot
 	return res
 }
 
+// noisyNeighbour: one HTTP/2 client keeps its connection open after sending an enormous number of PRIORITY frames (legal; the proxy
+// records them for that connection's fingerprint).  Clients that arrive afterwards are other connections: what the noisy one made the
+// proxy record - or any budget it used up - is none of their business, their fingerprints are functions of what THEY sent.
+func noisyNeighbour(st *stack.Stack, rng *rand.Rand, firstID, wave, frames int) []ConnObs {
+	dN := variant(rng, firstID)
+	clN, err := stack.DialUTLS(st.Addr, dN.Spec(), stack.DialOpts{ALPN: dN.ALPN})
+	if err != nil || clN.Proto != "h2" {
+		return []ConnObs{{ID: firstID, Wave: wave, Err: fmt.Sprintf("noisy connection: %v", err)}}
+	}
+	defer clN.Close()
+	clN.Conn.SetDeadline(time.Now().Add(30 * time.Second))
+	clN.Conn.Write([]byte(h2raw.Preface))
+	clN.Conn.Write(h2raw.Settings())
+	var buf []byte
+	for i := 0; i < frames; i++ {
+		buf = append(buf, h2raw.Priority(uint32(3+2*(i%50)), h2raw.Prio{Dep: 0, Weight: uint8(i)})...)
+		if len(buf) > 60000 || i == frames-1 {
+			if _, err := clN.Conn.Write(buf); err != nil {
+				return []ConnObs{{ID: firstID, Wave: wave, Err: "noisy connection: " + err.Error()}}
+			}
+			buf = buf[:0]
+		}
+	}
+	hcN := h2raw.NewConn(clN.Conn)
+	clN.Conn.Write(h2raw.Headers(1, true, h2raw.Block([]h2raw.HF{{":method", "GET"}, {":authority", "vf.test"}, {":scheme", "https"}, {":path", "/r"}, {"x-vf-tag", fmt.Sprintf("c%d-noisy", firstID)}}), nil, 0))
+	if err := hcN.WaitStreams(1); err != nil { // all its PRIORITY frames have been processed once this request is answered
+		return []ConnObs{{ID: firstID, Wave: wave, Err: "noisy connection: " + err.Error()}}
+	}
+	var out []ConnObs
+	for k := 1; k <= 3; k++ { // the noisy connection is still open
+		id := firstID + k
+		d := variant(rng, id)
+		pre := &Preamble{Settings: [][2]uint32{{3, uint32(100 + id)}, {4, uint32(65536 + 16*id)}}, WU: uint32(1000000 + id), Order: []string{"masp", "mpas", "mspa", "msap"}[id%4],
+			Prios: [][4]uint32{{3, 0, 0, 200}, {5, 1, 3, uint32(id % 256)}, {7, 0, 0, 0}}}
+		o := ConnObs{ID: id, Wave: wave}
+		cl, err := stack.DialUTLS(st.Addr, d.Spec(), stack.DialOpts{ALPN: d.ALPN})
+		if cl != nil && cl.Raw != nil {
+			msg := cl.Raw.HelloMessage()
+			o.HelloHex = hex.EncodeToString(msg)
+			if a, perr := hello.ParseMessage(msg); perr == nil {
+				o.Abstract = a
+			}
+		}
+		if err != nil {
+			o.Err = err.Error()
+			out = append(out, o)
+			continue
+		}
+		o.Proto = cl.Proto
+		if cl.Proto == "h2" {
+			o.Pre = pre
+		}
+		tags := []string{fmt.Sprintf("c%d-r0", id), fmt.Sprintf("c%d-r1", id)}
+		o.Err = session(st, cl, pre, tags, nil, func(int) {})
+		collect(st, &o, tags)
+		cl.Close()
+		out = append(out, o)
+	}
+	return out
+}
+
 func main() {
 	out := os.Args[1]
 	seed, _ := strconv.ParseInt(os.Getenv("VERIF_SEED"), 10, 64)
@@ -444,6 +505,9 @@ func main() {
 			all = append(all, successor(st, rng, id-1, id, 2000+k, pp[0], pp[1])...)
 		}
 	}
+	// a noisy neighbour: 70 000 PRIORITY frames on a connection that stays open, then three newcomers
+	all = append(all, noisyNeighbour(st, rng, id+1, 3000, 70000)...)
+	id += 4
 	b, _ := json.Marshal(all)
 	os.WriteFile(out, b, 0o644)
 }
